@@ -79,6 +79,10 @@ class PrintParse(Stream):
             {"doc": "x = a \\ \\ b\ny = 1\n", "level": 3, "width": 79},
             # formerly F3
             {"doc": "a = 1\n.type = int(allow_none=False)\n", "level": 3, "width": 79},
+            # bounds of float / floats types with 7 to 10 significant digits come back as written (round 9: %g kept six)
+            {"doc": "a = 1 2\n.type = floats(value_min=0.1234567, value_max=12345678)\nb = 1\n.type = float(value_min=-1.234567891, value_max=1234567.125)\n",
+             "level": 3, "width": 79},
+            {"doc": "a = 1 2\n.type = floats(size_max=3, value_min=0.001234567)\nb = 1\n.type = float(value_max=99999.9999)\n", "level": 2, "width": None},
         ]
 
     def cases(self, rng, tier):
@@ -113,7 +117,44 @@ class PrintParse(Stream):
         self.aux[id(case)] = (orc1, orc2, objs_sx(t1), objs_sx(t2) if t2 is not None else None)
         # last field: the parsed tree lies in the domain of the tree-level theorems (dtree_ok), unless it
         # contains what that domain excludes by design (deprecated definitions, include lines)
-        return ["ok", o1[1], text, o2, text2, "1"]
+        return ["ok", o1[1], text, o2, text2, "1", self.type_loss(t1, t2) if (t2 is not None and lv >= 2) else ""]
+
+    @staticmethod
+    def type_loss(t1, t2):
+        """the converter objects behind .type compared attribute by attribute (numbers by value): the wire form of a float /
+        floats type is its printed text, which cannot show digits that the printer itself drops (oracle only, round 9)"""
+        def norm(v):
+            if isinstance(v, bool) or v is None:
+                return repr(v)
+            if isinstance(v, (int, float)):
+                try:
+                    return "num:" + float(v).hex()
+                except OverflowError:
+                    return "int:" + repr(v)
+            return repr(v) if isinstance(v, (str, tuple, list)) else type(v).__name__
+
+        def tkey(t):
+            if t is None:
+                return None
+            d = getattr(t, "__dict__", None)
+            if d is None:
+                d = {k: getattr(t, k, None) for k in getattr(type(t), "__slots__", ())}
+            return [type(t).__name__] + sorted([k, norm(v)] for k, v in d.items())
+
+        def defs(sc):
+            for o in sc.objects:
+                if o.is_definition:
+                    yield o
+                else:
+                    yield from defs(o)
+        a, b = list(defs(t1)), list(defs(t2))
+        if [d.name for d in a] != [d.name for d in b]:
+            return ""                                  # a structural difference: reported by the tree comparison
+        for x, y in zip(a, b):
+            kx, ky = tkey(x.type), tkey(y.type)
+            if kx != ky:
+                return "%s: %s -> %s" % (x.full_path(), json.dumps(kx)[:200], json.dumps(ky)[:200])
+        return ""
 
     def requests(self, case, o):
         aux = self.aux.pop(id(case), None)
@@ -150,7 +191,7 @@ class PrintParse(Stream):
             if s2[0] == "uerr" and s2[1] == "Unmodelled":
                 return "UNMODELLED"
             text2 = s2[1] if s2[0] == "ok" else "!" + s2[1]
-        return ["ok", p1[1], sh[1], p2, text2, dt]
+        return ["ok", p1[1], sh[1], p2, text2, dt, o[6] if len(o) > 6 else ""]
 
     def in_domain(self, case):
         return True
@@ -168,6 +209,8 @@ class PrintParse(Stream):
             return "re-parsed tree differs: %s vs %s" % (json.dumps(got)[:400], json.dumps(want)[:400])
         if text2 != text:
             return "printing the re-parsed tree is not byte-identical"
+        if len(o) > 6 and o[6]:
+            return "the .type of the re-parsed definition differs from the printed one: %s" % o[6]
         return None
 
     def key(self, case, o):
